@@ -63,6 +63,24 @@ Example C07_nonvacuous_edge :
   read_edge (Mvcc.run (ops1 ++ ops2)) 2 4 = Some {| v_ver := 4; v_props := [(1, 7)] |}.
 Proof. vm_compute. repeat split; reflexivity. Qed.
 
+(* a node read is the state as of that version in the append-only history of acknowledged
+   events, for every history and every version (current, past or future), outside the recorded
+   class (no deletion of that node; a deletion erases its past, C07_refuted) *)
+Theorem C07_read_is_asof : forall ops id v,
+  Known_C07 id ops = false ->
+  fst (hrun ops) = nrun ops /\
+  option_map v_props (read_at (nrun ops) id v) = asof (snd (hrun ops)) id v.
+Proof. exact read_is_asof. Qed.
+
+Example C07_nonvacuous_asof :
+  let ops := [NCreate 1 [(0, 1)]; NBump; NSet 1 0 2; NSet 1 1 9; NBump; NBump; NRemove 1 0; NCreate 2 []; NDelete 2] in
+  Known_C07 1 ops = false /\
+  snd (hrun ops) = [(1, 1, Some [(0, 1)]); (1, 2, Some [(0, 2)]); (1, 2, Some [(0, 2); (1, 9)]);
+                    (1, 4, Some [(1, 9)]); (2, 4, Some []); (2, 4, None)] /\
+  asof (snd (hrun ops)) 1 1 = Some [(0, 1)] /\ asof (snd (hrun ops)) 1 3 = Some [(0, 2); (1, 9)] /\
+  asof (snd (hrun ops)) 1 4 = Some [(1, 9)] /\ asof (snd (hrun ops)) 1 0 = None.
+Proof. vm_compute. repeat split; reflexivity. Qed.
+
 (* scans and counts: each id once, count = number of scanned ids = entities readable now *)
 Theorem C07_scan_unique : forall ops,
   let s := nrun ops in
@@ -89,5 +107,6 @@ Proof. vm_compute. repeat split; reflexivity. Qed.
 Print Assumptions C07_read_stable_partial.
 Print Assumptions C07_refuted.
 Print Assumptions C07_read_stable_edge.
+Print Assumptions C07_read_is_asof.
 Print Assumptions C07_scan_unique.
 Print Assumptions C07_deleted_unreadable.
